@@ -4,6 +4,7 @@
      excellent/types/datetime.go  XDateTime.Render (dates.FormatISO), XDateTime.Format(env), ToXDateTime (XText case)
      excellent/types/date.go      XDate.Render / Format(env), ToXDate (XText case)
      excellent/types/time.go      XTime.Render / Format(env), ToXTime (XText case)
+     flows/field.go               FieldValues.Parse (text, number and datetime of a stored field value)
      envs/dates.go                DateTimeFromString, DateFromString, TimeFromString, parseDate, dateFromFormats,
                                   parseTime and the four regular expressions
      gocommon/dates               FormatISO ("2006-01-02T15:04:05.000000Z07:00"), Format for the layouts
@@ -467,8 +468,10 @@ Definition time_from_string (s : text) : option tod := parse_time s.
 Definition date_from_string (e : env) (s : text) : option date :=
   match parse_date e s with Some (d, _) => Some d | None => None end.
 
-(* DateTimeFromString(env, str, fillTime = false): the instant *)
-Definition datetime_from_string (offset : Z -> Z) (e : env) (s : text) : option Z :=
+(* DateTimeFromString(env, str, fillTime): the instant.  [fill] is the time of day used when the text has a date but
+   no time: 00:00:00 for fillTime = false (ToXDateTime), the current time of day in the environment's zone for
+   fillTime = true (ToXDateTimeWithTimeFill, used by FieldValues.Parse) *)
+Definition datetime_from_string_with (fill : tod) (offset : Z -> Z) (e : env) (s : text) : option Z :=
   let s := trim_dt s in
   match parse_iso_layout true s with
   | Some t => Some t
@@ -479,8 +482,18 @@ Definition datetime_from_string (offset : Z -> Z) (e : env) (s : text) : option 
       match parse_date e s with
       | None => None
       | Some ((y, m, d), rest) =>
-          let t := match parse_time rest with Some t => t | None => Tod 0 0 0 0 end in
+          let t := match parse_time rest with Some t => t | None => fill end in
           Some (from_wall offset (wall_of y m d (t_hour t) (t_min t) (t_sec t)) * giga + t_ns t)
       end
     end
+  end.
+
+Definition datetime_from_string : (Z -> Z) -> env -> text -> option Z := datetime_from_string_with (Tod 0 0 0 0).
+
+(* flows/field.go FieldValues.Parse: the typed values stored beside the text of a contact field value
+   (None = empty text, no value at all); locations are not modelled *)
+Definition field_parse (fill : tod) (offset : Z -> Z) (e : env) (raw : text) : option (option dec * option Z) :=
+  match raw with
+  | [] => None
+  | _ => Some (parse_number raw, datetime_from_string_with fill offset e raw)
   end.
